@@ -17,6 +17,7 @@ mod readimage;
 mod vp8recon;
 mod vp8decode;
 mod c10bits;
+mod c10lossless;
 mod c13;
 mod c10;
 mod c11;
@@ -65,6 +66,7 @@ fn main() {
         "vp8recon" => vp8recon::run(tier, seed, out, extra),
         "vp8decode" => vp8decode::run(tier, seed, out, extra),
         "c10bits" => c10bits::run(tier, seed, out, extra),
+        "c10lossless" => c10lossless::run(tier, seed, out, extra),
         "c13" => c13::run(tier, seed, out, extra),
         "c10" => c10::run(tier, seed, out, extra),
         "c11" => c11::run(tier, seed, out, extra),
